@@ -23,6 +23,7 @@ fn focus_for(prop: &str) -> Vec<(Focus, &'static str, u64)> {
         "C04" => vec![(Focus::Protocol, "raw-fault-conversations", 60), (Focus::Sync, "raw-sync-placements", 15), (Focus::Links, "raw-link-accounting", 25)],
         "C14" => vec![(Focus::Supply, "raw-supply-bursts", 100)],
         "C20" => vec![(Focus::Links, "raw-link-accounting", 80), (Focus::Protocol, "raw-fault-conversations", 20)],
+        "C17" => vec![(Focus::Inactivity, "raw-inactivity", 100)],
         _ => vec![(Focus::Protocol, "raw-fault-conversations", 100)],
     }
 }
